@@ -477,9 +477,9 @@ func (z *ZodRecord[T, R]) validateRecordValue(value T, checks []core.ZodCheck, c
 // extractRecordValue extracts base type T from constraint type R.
 func extractRecordValue[T any, R any](value R) T {
 	switch v := any(value).(type) {
-	case *map[string]any:
+	case *T:
 		if v != nil {
-			return any(*v).(T)
+			return *v
 		}
 		var zero T
 		return zero
@@ -488,31 +488,23 @@ func extractRecordValue[T any, R any](value R) T {
 	}
 }
 
-// convertToRecordConstraintValue converts any value to constraint type R.
+// convertToRecordConstraintValue converts any value to constraint type R (T or *T).
 func convertToRecordConstraintValue[T any, R any](value any) (R, bool) {
 	var zero R
-
-	if value == nil {
-		if _, ok := any(zero).(*map[string]any); ok {
-			return any((*map[string]any)(nil)).(R), true
-		}
-	}
 
 	if r, ok := any(value).(R); ok { //nolint:unconvert // Required for generic type constraint conversion
 		return r, true
 	}
 
-	if _, ok := any(zero).(*map[string]any); ok {
-		if recordVal, ok := value.(map[string]any); ok {
-			return any(&recordVal).(R), true
+	if _, ptr := any(zero).(*T); ptr {
+		if value == nil {
+			return zero, true // the nil *T
 		}
-		if recordPtr, ok := value.(*map[string]any); ok {
-			return any(recordPtr).(R), true
+		if v, ok := value.(T); ok {
+			return any(&v).(R), true
 		}
-	} else {
-		if recordPtr, ok := value.(*map[string]any); ok && recordPtr != nil {
-			return any(*recordPtr).(R), true
-		}
+	} else if p, ok := value.(*T); ok && p != nil {
+		return any(*p).(R), true
 	}
 
 	return zero, false
